@@ -248,6 +248,9 @@ fn run_batch(
                                         }
                                     } else {
                                         st.inc(&format!("other_property_oracle_failed/{}", viol.signature));
+                                        if std::env::var("OQ3SIM_SHOW_OTHER").is_ok() {
+                                            eprintln!("other-property failure: run {} case {} {} {}", i, case, viol.signature, viol.detail);
+                                        }
                                     }
                                 }
                             }
@@ -434,7 +437,8 @@ fn main() {
                 let hits = b.stats.get(&format!("known_finding/{}", f.signature));
                 println!("KNOWN-FINDING: property={} signature={} hits_in_this_run={} {}", property, f.signature, hits, f.what);
             }
-            let ev = evidence(&property, &tier, seed, &b, wall, threads, reported.len(), json!({}));
+            let extra: Value = args.value("--extra").and_then(|s| serde_json::from_str(&s).ok()).unwrap_or_else(|| json!({}));
+            let ev = evidence(&property, &tier, seed, &b, wall, threads, reported.len(), extra);
             if let Err(e) = report::write_json(&evidence_path, &ev) {
                 eprintln!("harness error: {}", e);
                 std::process::exit(2);
